@@ -707,6 +707,89 @@ func (r *rpRun) run(b Behaviour, idx int) {
 			r.violate("bad-merged", fmt.Sprintf("refused entry %d is in the log after the replica was restarted and loaded", id), nil, got2)
 		}
 	}
+	r.loadCancelled(b, idx, got2)
+}
+
+// loadCancelled (C11, load requests): the replica is started once more; a first Load is given up by its caller
+// after k block reads, a second one is not: it must make everything visible that a single Load makes visible.
+func (r *rpRun) loadCancelled(b Behaviour, idx int, want []int) {
+	if len(want) < 2 {
+		return
+	}
+	h := sim.TheHub
+	pa := r.nodes["a"].P
+	addr := r.a.Addr
+	// the replica writes a chain of its own on top of what it holds: below the newest entry there is one path only
+	want = append([]int{}, want...)
+	for i := 1; i <= 5; i++ {
+		op, err := r.a.S.(orbitdb.KeyValueStore).Put(context.Background(), fmt.Sprintf("c%d", i), []byte("x"))
+		if err != nil {
+			r.res.Inconclusive = append(r.res.Inconclusive, b.ID+": write: "+err.Error())
+			return
+		}
+		r.ids[op.GetEntry().GetHash().String()] = 100 + i
+		want = append(want, 100+i)
+	}
+	if err := sim.Settle(6*time.Second, r.nodes["a"]); err != nil {
+		r.res.Inconclusive = append(r.res.Inconclusive, b.ID+": "+err.Error())
+		return
+	}
+	if err := r.nodes["a"].Close(); err != nil {
+		return
+	}
+	na, err := pa.Start("")
+	if err != nil {
+		r.res.Inconclusive = append(r.res.Inconclusive, b.ID+": restart: "+err.Error())
+		return
+	}
+	r.nodes["a"] = na
+	ref, err := na.Open(addr, "keyvalue", nil)
+	if err != nil {
+		r.res.Inconclusive = append(r.res.Inconclusive, b.ID+": reopen: "+err.Error())
+		return
+	}
+	r.a = ref
+	k := 1 + idx%(2*len(want)+2)
+	h.ParkAt("sim.get", func(args []interface{}) bool { return len(args) > 0 && args[0] == interface{}(pa) })
+	ctx1, cancel1 := context.WithCancel(context.Background())
+	done := make(chan error, 1)
+	go func() { done <- ref.S.Load(ctx1, -1) }()
+	passed := 0
+	for passed < k {
+		p := parkedFor("sim.get", nil, 300*time.Millisecond)
+		if p == nil {
+			break // the load needs fewer reads than k: it completes
+		}
+		h.Release(p)
+		passed++
+	}
+	cancel1()
+	h.Unpark("sim.get")
+	h.ReleaseAll()
+	select {
+	case <-done:
+	case <-time.After(6 * time.Second):
+		r.violate("wedged", fmt.Sprintf("a Load whose caller gave up after %d block reads never returns", passed), nil, nil)
+		return
+	}
+	r.res.note("%s: Load given up after %d of the block reads: log %v", b.ID, passed, r.logIDs())
+	if err := ref.S.Load(context.Background(), -1); err != nil {
+		r.violate("wedged", "a Load after a Load that was given up fails: "+err.Error(), nil, nil)
+		return
+	}
+	if err := sim.Settle(6*time.Second, na); err != nil {
+		r.violate("wedged", "after a Load that was given up the replica does not come to rest: "+err.Error(), nil, r.a.ReplStats())
+		return
+	}
+	r.res.Comparisons++
+	r.res.Stats["loads_given_up"]++
+	got := r.logIDs()
+	for _, id := range want {
+		if !contains(got, id) {
+			r.violate("missing", fmt.Sprintf("entry %d is not visible after a Load that was given up after %d block reads followed by a complete Load", id, passed), want, got)
+			break
+		}
+	}
 }
 
 func replicatorCmd(args []string) int {
